@@ -35,11 +35,84 @@ def one(spec):
     return res
 
 
+# ---------------------------------------------------------------------------------------------------
+# hard cases: zero-percent sweeps from the start, an explicit low-dimensional start guess (bond dimension
+# 1 or 2, which can grow by at most the local physical dimension per sweep), long chains.  The routine
+# must really iterate to convergence; a vacuous convergence test stops after the second sweep.
+def dense_operator(mpo):
+    res = np.ones((1, 1, 1), dtype=complex)
+    for mt in mpo:
+        a = np.asarray(mt.array)
+        res = np.einsum("xyl,ludr->xuydr", res, a)
+        res = res.reshape(res.shape[0] * res.shape[1], res.shape[2] * res.shape[3], res.shape[4])
+    return res[:, :, 0]
+
+
+def dense_state(mps):
+    res = np.ones((1, 1), dtype=complex)
+    for mt in mps:
+        a = np.asarray(mt.array)
+        res = np.tensordot(res, a, axes=1).reshape(-1, a.shape[-1])
+    return res[:, 0] * getattr(mps, "coeff", 1)
+
+
+def hard_model(chain, n, rng):
+    from renormalizer.model import Model, Op
+    from renormalizer.model.basis import BasisHalfSpin, BasisSimpleElectron
+    terms = []
+    if chain == "spin":                       # no symmetry
+        for i in range(n - 1):
+            terms.append(Op("sigma_x sigma_x", [i, i + 1], round(rng.uniform(0.2, 0.8), 3)))
+            terms.append(Op("sigma_z sigma_x", [i, i + 1], round(rng.uniform(0.1, 0.4), 3)))
+        for i in range(n):
+            terms.append(Op("sigma_z", i, round(rng.uniform(0.1, 1.0), 3)))
+        return Model([BasisHalfSpin(i) for i in range(n)], terms), 0
+    for i in range(n - 1):                    # particle-number conserving hopping chain
+        t = round(rng.uniform(0.2, 0.8), 3)
+        terms.append(Op(r"a^\dagger a", [i, i + 1], t))
+        terms.append(Op(r"a^\dagger a", [i + 1, i], t))
+    for i in range(n):
+        terms.append(Op(r"a^\dagger a", [i, i], round(rng.uniform(0.1, 1.0), 3)))
+    return Model([BasisSimpleElectron(i) for i in range(n)], terms), n // 2
+
+
+def one_hard(spec):
+    """spec: {"hard":1,"seed","chain":"spin"|"hop","nsite","method","guess_m","mrule":"rank"|"full","nsweep"}"""
+    from renormalizer.mps import Mps
+    rng = random.Random(spec["seed"])
+    np.random.seed(spec["seed"] % (2 ** 32 - 1))
+    n = spec["nsite"]
+    model, q = hard_model(spec["chain"], n, rng)
+    mpo = Mpo(model)
+    try:
+        with np.errstate(all="raise"):
+            mps = Mps.random(model, q, 3, percent=1.0)
+            guess = Mps.random(model, q, spec["guess_m"], percent=1.0)
+    except (FloatingPointError, ZeroDivisionError):
+        raise G.GenFail("Mps.random")
+    ref = dense_operator(mpo) @ dense_state(mps)
+    if np.linalg.norm(ref) < 1e-8:
+        raise G.GenFail("zero product")
+    ranks = []
+    for i in range(1, n):
+        sv = np.linalg.svd(ref.reshape(2 ** i, -1), compute_uv=False)
+        ranks.append(int((sv > 1e-11 * sv[0]).sum()))
+    M = max(ranks) if spec["mrule"] == "rank" else 2 ** (n // 2)
+    guess.compress_config = CompressConfig(CompressCriteria.fixed, max_bonddim=M, vmethod=spec["method"],
+                                           vprocedure=[[M, 0]] * spec.get("nsweep", 30), vrtol=1e-10)
+    out = mps.variational_compress(mpo, guess=guess)
+    err = float(np.linalg.norm(dense_state(out) - ref) / np.linalg.norm(ref))
+    return {"err": err, "M": M, "ranks": ranks, "dims": [int(x) for x in out.bond_dims]}
+
+
 def main():
     payload = json.load(sys.stdin)
     out = {"cases": [], "errors": []}
     for ci, spec in payload["specs"]:
         try:
+            if spec.get("hard"):
+                out.setdefault("hard", []).append({"case": ci, "spec": spec, "res": one_hard(spec)})
+                continue
             r = one(spec)
             if r is not None:
                 out["cases"].append({"case": ci, "spec": spec, "res": r})
@@ -56,6 +129,10 @@ def main():
 
 
 def replay(spec, tol):
+    if spec.get("hard"):
+        r = one_hard(spec)
+        print(r)
+        return 1 if r["err"] > tol else 0
     r = one(spec)
     print(r)
     return 1 if r and max(r["2site"], r["1site"]) > tol else 0
